@@ -186,7 +186,7 @@ def loop_frame(st, lc):
         for m in lc['modifies']:
             targets.extend(calls.eval_mod_entry(st, m, dict(st.locals)))
     else:
-        targets = list(st.mod_targets or [])
+        targets = list(st.frames[-1][0]) if st.frames else []
     return targets
 
 
@@ -215,6 +215,8 @@ def exec_for(st, s):
     st.locals[kname] = Val(T.INT, z3.IntVal(0))
     st.locals['_k%d' % o] = st.locals[kname]
     st.locals['_n%d' % o] = Val(T.INT, it.n)
+    if it.src is not None:
+        st.locals['_seq%d' % o] = Val(T.TSeq(it.src[0].t.args[0]), it.src[1])
     prove_invs(st, o, lc, 'entry', line)
     targets = loop_frame(st, lc)
     # havoc
@@ -236,8 +238,8 @@ def exec_for(st, s):
     dec0 = None
     if st.choose(2, 'loop#%d iterate/exit' % o) == 0:
         st.assume(kk < it.n)
-        saved_frame = (st.mod_targets, st.alloc0)
-        st.mod_targets, st.alloc0 = targets, st.alloc
+        st.frames.append((targets, st.alloc))
+        depth = len(st.frames) - 1
         E.assign_target(st, s.target, it.item(kk))
         try:
             try:
@@ -245,12 +247,16 @@ def exec_for(st, s):
             except ContinueSig:
                 pass
         except BreakSig:
-            st.mod_targets, st.alloc0 = saved_frame
+            E.loop_exit(st, depth)
+            st.frames.pop()
             _restore_k(st, kname, saved_k)
             return
-        finally:
-            pass
-        st.mod_targets, st.alloc0 = saved_frame
+        except (ReturnSig, PyRaise):
+            E.loop_exit(st, depth)
+            st.frames.pop()
+            raise
+        E.loop_backedge(st, depth)
+        st.frames.pop()
         if it.src is not None:
             lv, snap = it.src
             cur = st.list_seq(lv.z, lv.t.args[0])
@@ -285,17 +291,23 @@ def exec_while(st, s):
         dec0 = E.eval_spec(st, lc['dec'], dict(st.locals)).z
     c = E.ev(st, s.test)
     if st.branch(E.truthy(st, c)):
-        saved_frame = (st.mod_targets, st.alloc0)
-        st.mod_targets, st.alloc0 = targets, st.alloc
+        st.frames.append((targets, st.alloc))
+        depth = len(st.frames) - 1
         try:
             try:
                 E.exec_block(st, s.body)
             except ContinueSig:
                 pass
         except BreakSig:
-            st.mod_targets, st.alloc0 = saved_frame
+            E.loop_exit(st, depth)
+            st.frames.pop()
             return
-        st.mod_targets, st.alloc0 = saved_frame
+        except (ReturnSig, PyRaise):
+            E.loop_exit(st, depth)
+            st.frames.pop()
+            raise
+        E.loop_backedge(st, depth)
+        st.frames.pop()
         prove_invs(st, o, lc, 'preserved', line)
         if dec0 is not None:
             dec1 = E.eval_spec(st, lc['dec'], dict(st.locals)).z
